@@ -658,6 +658,7 @@ theorem limits_leaves : Leaves (keeps LimitsInv) where
   trans := fun _ _ _ h1 h2 h => h2 (h1 h)
   gate := fun b s a p m h => limitsInv_gate b s a p m h
   forget := fun b c h => limitsInv_forget b c h
+  expire := fun b h => ⟨h.ids, h.conns, fun _ => Nat.zero_le _, h.completed, h.per_user⟩
   acquire := fun t c n flags hact h => limitsInv_acquire t c n flags hact h
   release := fun t c n h => limitsInv_release t c n h
   removeOwner := fun t n c h => limitsInv_removeOwner t n c h
